@@ -1,7 +1,8 @@
 (* C11 - property theorems only. *)
 From Coq Require Import String List.
-Require Import PV.Events PV.EventsThms PV.gen.FactsC11.
+Require Import PV.Events PV.EventsThms PV.gen.FactsC11 PV.gen.EventsGen PV.TieEvents.
 Import ListNotations.
+Local Open Scope list_scope.
 
 (* tie to the source: the table extracted from /repo on this run satisfies the syntactic conditions; set_backend and
    events.Callables still have the statement order the model transcribes *)
@@ -44,6 +45,60 @@ Theorem C11_optimizer_event_iff_name_changed_refuted :
   exists s b p n, n = fst (cur_opt s) /\ In (EvTrigger "optimizer_changed") (snd (set_backend s b p (OByName n))).
 Proof. exact optimizer_event_iff_name_changed_refuted. Qed.
 
+(* --- tie to the source: pyhf/events.py and pyhf/tensor/manager.py:set_backend are TRANSLATED to PV.gen.EventsGen on every run
+   (harness/props/c11_tie.py); coq/TieEvents.v proves the translated definitions equal to what the hand model says --- *)
+(* Callables._flush keeps exactly the references that are alive in the world it is run in, in order *)
+Theorem C11_source_is_model_flush : forall (W A : Type) deref call_method call_func (w : W) cbs,
+  gen_flush W A deref call_method call_func w cbs = filter (cb_alive W deref w) cbs.
+Proof. exact tie_flush. Qed.
+(* Callables.__call__: in subscription order, each reference that is alive when its turn comes, on the world the earlier callbacks left; the
+   dead references are flushed only AFTER the round, against the world the round left *)
+Theorem C11_source_is_model_callables_call : forall (W A : Type) deref call_method call_func (w : W) cbs (a : A),
+  gen_callables_call W A deref call_method call_func w cbs a
+  = (fold_left (cb_invoke W A deref call_method call_func a) cbs w,
+     filter (cb_alive W deref (fold_left (cb_invoke W A deref call_method call_func a) cbs w)) cbs).
+Proof. exact tie_callables_call. Qed.
+Theorem C11_source_is_model_append : forall cbs f o,
+  gen_append_method cbs f o = cbs ++ [(f, Some o)] /\ gen_append_function cbs f = cbs ++ [(f, None)].
+Proof. intros cbs f o. exact (conj (tie_append_method cbs f o) (tie_append_function cbs f)). Qed.
+Theorem C11_source_is_model_subscribe : forall events event f o e,
+  entry (gen_subscribe_method events event f o) e = if String.eqb e event then entry events event ++ [(f, Some o)] else entry events e.
+Proof. exact tie_subscribe_method. Qed.
+Theorem C11_source_is_model_subscribe_registry : forall s id,
+  entry (gen_subscribe_method (events_of s) "tensorlib_changed" 0 id) "tensorlib_changed" = map mref (registry (subscribe s id)).
+Proof. exact tie_subscribe_model. Qed.
+Theorem C11_source_is_model_trigger : forall events disabled event,
+  gen_trigger events disabled event
+  = if mem_str event disabled then CNoop else match assoc event events with Some cbs => CCallables cbs | None => CNoop end.
+Proof. exact tie_trigger. Qed.
+Theorem C11_source_is_model_disable_enable : forall disabled event, mem_str event disabled = false ->
+  gen_enable (gen_disable disabled event) event = Ok disabled.
+Proof. exact enable_after_disable. Qed.
+Theorem C11_source_is_model_register : forall (W A R : Type) fire run event (w : W) (a : A),
+  gen_register_wrapper W A R fire run event w a
+  = let w1 := fire w (event ++ "::before")%string in let r := run w1 a in (fire (fst r) (event ++ "::after")%string, snd r).
+Proof. exact tie_register_wrapper. Qed.
+(* set_backend against the generic specification TieEvents.set_backend_spec, for ALL meanings of the opaque functions: which slot every
+   comparison reads (cur / dflt), which event fires under which condition, the order swap - default events - events - _setup *)
+Theorem C11_source_is_model_set_backend_spec :
+  forall (W tobj oobj bcls ocls : Type) lower getb newb bname bprec binst geto newo oname oinst oneq cur dflt set_cur set_dflt fire setup,
+  let spec := set_backend_spec W tobj oobj bcls ocls lower getb newb bname bprec binst geto newo oname oinst oneq cur dflt set_cur set_dflt fire setup in
+  (forall b o p d w, gen_set_backend_str_str_str W tobj oobj bcls ocls lower getb newb bname bprec binst geto newo oname oinst oneq cur dflt set_cur set_dflt fire setup b o p d w
+                     = spec (BStr tobj b) (OStr oobj o) (Some p) d w)
+  /\ (forall b o p d w, gen_set_backend_str_obj_str W tobj oobj bcls ocls lower getb newb bname bprec binst geto newo oname oinst oneq cur dflt set_cur set_dflt fire setup b o p d w
+                        = spec (BStr tobj b) (OObj oobj o) (Some p) d w)
+  /\ (forall b d w, gen_set_backend_str_none_none W tobj oobj bcls ocls lower getb newb bname bprec binst geto newo oname oinst oneq cur dflt set_cur set_dflt fire setup b d w
+                    = spec (BStr tobj b) (ONone oobj) None d w)
+  /\ (forall b o d w, gen_set_backend_obj_obj_none W tobj oobj bcls ocls lower getb newb bname bprec binst geto newo oname oinst oneq cur dflt set_cur set_dflt fire setup b o d w
+                      = spec (BObj tobj b) (OObj oobj o) None d w).
+Proof. intros. repeat split; intros; [apply tie_set_backend_str_str_str|apply tie_set_backend_str_obj_str|apply tie_set_backend_str_none_none|apply tie_set_backend_obj_obj_none]. Qed.
+(* ... and against Events.set_backend itself: the translated register wrapper around the translated body, events.trigger(name)() being the
+   translated trigger followed by the translated Callables.__call__, yields the model's state and the model's events - whatever the default slot holds *)
+Theorem C11_source_is_model_set_backend : forall b p o s d l,
+  gen_register_wrapper world unit unit fire_i (run_sb b p o) gen_set_backend_event (mkW s d l) tt
+  = (mkW (fst (set_backend s b p o)) d (l ++ snd (set_backend s b p o)), tt).
+Proof. exact tie_set_backend_model. Qed.
+
 Print Assumptions C11_facts_ok.
 Print Assumptions C11_switch_invariant.
 Print Assumptions C11_eval_as_fresh.
@@ -56,3 +111,13 @@ Print Assumptions C11_event_at_most_once.
 Print Assumptions C11_round_calls_live_in_order.
 Print Assumptions C11_optimizer_event_iff_new_object.
 Print Assumptions C11_optimizer_event_iff_name_changed_refuted.
+Print Assumptions C11_source_is_model_flush.
+Print Assumptions C11_source_is_model_callables_call.
+Print Assumptions C11_source_is_model_append.
+Print Assumptions C11_source_is_model_subscribe.
+Print Assumptions C11_source_is_model_subscribe_registry.
+Print Assumptions C11_source_is_model_trigger.
+Print Assumptions C11_source_is_model_disable_enable.
+Print Assumptions C11_source_is_model_register.
+Print Assumptions C11_source_is_model_set_backend_spec.
+Print Assumptions C11_source_is_model_set_backend.
